@@ -187,6 +187,18 @@ fn scn_configs(o: &Opts, tr: &mut Tr, prop: &str) {
             }
         }
     }
+    if prop == "C09" {
+        // window-bits values outside 8..15 are clamped, never a reason to drop or garble the framing
+        for wb in [0u8, 1, 2, 7, 16, 17, 24, 31, 32, 100, 255] {
+            for lvl in [0u8, 1, 6] {
+                for st in [0usize, 2, 4] {
+                    let cfg = Cfg { zlib: true, level: lvl, strat: st, wbits: wb, api: "params" };
+                    let data = gen::data("mixed", 1500, &mut r);
+                    stream_comp_case(tr, &format!("cfgw-z-l{}-{}-w{}", lvl, STRATS[st].0, wb), prop, &data, &cfg, &big_out_sched(), &mut r, "mixed");
+                }
+            }
+        }
+    }
     // flags API (CompressorOxide::new) incl. levels beyond 10 and negative-like defaults
     for zl in [true, false] {
         for lvl in [0u8, 1, 3, 6, 10, 11, 200] {
@@ -243,6 +255,7 @@ fn main() {
         "genstreams" => scn_dec::scn_genstreams(&o, &mut tr, "C03"),
         "genstreams_c04" => scn_dec::scn_genstreams(&o, &mut tr, "C04"),
         "entrypoints" => scn_dec::scn_entrypoints(&o, &mut tr, "C03"),
+        "zlibframe" => scn_dec::scn_zlibframe(&o, &mut tr, "C09"),
         "trailing" => scn_dec::scn_trailing(&o, &mut tr, "C06"),
         "schedules" => scn_dec::scn_schedules(&o, &mut tr, "C07"),
         "invalid" => scn_dec::scn_invalid(&o, &mut tr, "C04"),
